@@ -43,6 +43,7 @@ inductive Expr
   | call0 (fn : String)                         -- external call without (relevant) arguments
   | call1 (fn : String) (a : Expr)
   | call2 (fn : String) (a b : Expr)
+  | field (a : Expr) (f : String)               -- `v.F` where v is the result of an external call: a pure projection
   | unsupported (what : String)
   deriving Repr, DecidableEq
 
@@ -60,6 +61,11 @@ inductive Stmt
   | ret0
   | ret1 (a : Expr)
   | ret2 (a b : Expr)
+  | append (arr : String) (e : Expr)            -- `xs = append(xs, e)`
+  /-- a call as a statement: `d0, d1 := fn(args)`, `fn(args)`, or — with `fn = "$dyn"` and the function value as first
+  argument — `d0 := f(args)` for a local function value `f`. The arguments are logged (slice `fn`), the results come
+  from the oracle, and when `pfn ≠ ""` the oracle `pfn` decides whether the callee panics. -/
+  | callS (dsts : List String) (fn pfn : String) (args : List Expr)
   | unsupported (what : String)
   deriving Repr, DecidableEq
 
@@ -151,6 +157,7 @@ inductive Outcome (F : Type)
   | normal (s : State F)
   | returned (vals : List (Val F)) (s : State F)
   | error (msg : String)
+  | panicked (s : State F)                       -- a callee panicked: the function unwinds (deferred effects still fire)
 
 /-- sequencing: only a normal outcome continues -/
 def Outcome.andThen (o : Outcome F) (k : State F → Outcome F) : Outcome F :=
@@ -174,8 +181,54 @@ def finish : Outcome F → Except String (List (Val F) × State F)
   | .normal s1 => .ok ([], { s1 with trace := s1.defers.reverse ++ s1.trace, defers := [] })
   | .returned vs s1 => .ok (vs, { s1 with trace := s1.defers.reverse ++ s1.trace, defers := [] })
   | .error m => .error m
+  | .panicked s1 => .ok ([], { s1 with trace := "<panicked>" :: (s1.defers.reverse ++ s1.trace), defers := [] })
+
+/-- evaluate the arguments of a call, then continue as a statement -/
+def bindL (r : Except String (List (Val F) × State F)) (k : List (Val F) → State F → Outcome F) : Outcome F :=
+  match r with
+  | .ok (vs, s) => k vs s
+  | .error e => .error e
+
+def consV (v : Val F) (r : Except String (List (Val F) × State F)) : Except String (List (Val F) × State F) :=
+  match r with
+  | .ok (vs, s) => .ok (v :: vs, s)
+  | .error e => .error e
+
+def isTrue : Val F → Bool
+  | .bool true => true
+  | _ => false
+
+/-- the keys under which the arguments of a logged call are stored -/
+def argKeys : List String := ["0", "1", "2", "3", "4", "5", "6", "7"]
+
+/-- append a record to a slice (created when absent) -/
+def State.push (s : State F) (arr : String) (rec : List (String × Val F)) : State F :=
+  { s with arrs := upd arr ((lookup arr s.arrs).getD [] ++ [rec]) s.arrs }
+
+/-- assign the results of a call to its destinations (`_` discards) -/
+def State.setAll (s : State F) : List String → (Nat → Val F) → Nat → State F
+  | [], _, _ => s
+  | d :: ds, f, i => if d = "_" then s.setAll ds f (i + 1) else (s.set d (f i)).setAll ds f (i + 1)
 
 /-! #### symbolic-evaluation lemmas -/
+
+@[minigo] theorem bindL_ok (vs : List (Val F)) (s : State F) (k : List (Val F) → State F → Outcome F) :
+    bindL (.ok (vs, s)) k = k vs s := rfl
+@[minigo] theorem bindL_error (e : String) (k : List (Val F) → State F → Outcome F) : bindL (F := F) (.error e) k = .error e := rfl
+@[minigo] theorem bindL_ite (p : Prop) [Decidable p] (a b : Except String (List (Val F) × State F))
+    (k : List (Val F) → State F → Outcome F) : bindL (if p then a else b) k = if p then bindL a k else bindL b k := by
+  split <;> rfl
+@[minigo] theorem consV_ok (v : Val F) (vs : List (Val F)) (s : State F) : consV v (.ok (vs, s)) = .ok (v :: vs, s) := rfl
+@[minigo] theorem consV_error (v : Val F) (e : String) : consV v (.error e) = .error e := rfl
+@[minigo] theorem consV_ite (v : Val F) (p : Prop) [Decidable p] (a b : Except String (List (Val F) × State F)) :
+    consV v (if p then a else b) = if p then consV v a else consV v b := by split <;> rfl
+@[minigo] theorem isTrue_bool (b : Bool) : isTrue (F := F) (.bool b) = b := by cases b <;> rfl
+@[minigo] theorem setAll_nil (s : State F) (f : Nat → Val F) (i : Nat) : s.setAll [] f i = s := rfl
+@[minigo] theorem setAll_cons (s : State F) (d : String) (ds : List String) (f : Nat → Val F) (i : Nat) :
+    s.setAll (d :: ds) f i = if d = "_" then s.setAll ds f (i + 1) else (s.set d (f i)).setAll ds f (i + 1) := rfl
+@[minigo] theorem finish_panicked (s1 : State F) :
+    finish (.panicked s1) = .ok ([], { s1 with trace := "<panicked>" :: (s1.defers.reverse ++ s1.trace), defers := [] }) := rfl
+@[minigo] theorem andThen_panicked (s : State F) (k : State F → Outcome F) : (Outcome.panicked s).andThen k = .panicked s := rfl
 
 @[minigo] theorem bindE_ok {α} (v : Val F) (s : State F) (k : Val F → State F → Except String α) :
     bindE (.ok (v, s)) k = k v s := rfl
@@ -350,7 +403,13 @@ def evalE (ext : Ext F) : Expr → State F → M F (Val F)
   | .call1 f a, s => bindE (evalE ext a s) fun v s1 => .ok (ext f (s1.ncalls f) [v], s1.bump f)
   | .call2 f a b, s => bindE (evalE ext a s) fun va s1 => bindE (evalE ext b s1) fun vb s2 =>
       .ok (ext f (s2.ncalls f) [va, vb], s2.bump f)
+  | .field a f, s => bindE (evalE ext a s) fun v s1 => .ok (ext f 0 [v], s1)
   | .unsupported w, _ => .error w
+
+/-- the arguments of a call, left to right -/
+def evalL (ext : Ext F) : List Expr → State F → Except String (List (Val F) × State F)
+  | [], s => .ok ([], s)
+  | e :: es, s => bindE (evalE ext e s) fun v s1 => consV v (evalL ext es s1)
 
 /-- `fuel` bounds the nesting of loop iterations -/
 def exec (ext : Ext F) : Nat → Stmt → State F → Outcome F
@@ -370,6 +429,7 @@ def exec (ext : Ext F) : Nat → Stmt → State F → Outcome F
     | .normal s1 => .normal { s1 with trace := s1.defers.reverse ++ s1.trace, defers := s.defers }
     | .returned _ s1 => .normal { s1 with trace := s1.defers.reverse ++ s1.trace, defers := s.defers }
     | .error m => .error m
+    | .panicked s1 => .panicked { s1 with trace := s1.defers.reverse ++ s1.trace, defers := s.defers }
   | 0, .while _ _, _ => .error "out of fuel"
   | fuel + 1, .while c body, s => bindS (evalE ext c s) fun v s1 => asBoolS v fun b =>
       if b then (exec ext fuel body s1).andThen fun s2 => exec ext fuel (.while c body) s2
@@ -377,6 +437,12 @@ def exec (ext : Ext F) : Nat → Stmt → State F → Outcome F
   | _, .ret0, s => .returned [] s
   | _, .ret1 a, s => bindS (evalE ext a s) fun v s1 => .returned [v] s1
   | _, .ret2 a b, s => bindS (evalE ext a s) fun va s1 => bindS (evalE ext b s1) fun vb s2 => .returned [va, vb] s2
+  | _, .append arr e, s => bindS (evalE ext e s) fun v s1 => .normal ((s1.push arr [("", v)]).set arr .nonNil)
+  | _, .callS dsts fn pfn args, s => bindL (evalL ext args s) fun vs s1 =>
+      let n := s1.ncalls fn
+      let s2 := (s1.bump fn).push fn (argKeys.zip vs)
+      if pfn ≠ "" ∧ isTrue (ext pfn n vs) = true then .panicked s2
+      else .normal (s2.setAll dsts (fun i => ext fn n (.int i :: vs)) 0)
   | _, .unsupported w, _ => .error w
 
 /-- run a function body -/
@@ -629,6 +695,11 @@ theorem evalE_bin_gen (op : BinOp) (h1 : op ≠ .land) (h2 : op ≠ .lor) (a b :
       .ok (ext f (s2.ncalls f) [va, vb], s2.bump f) := by simp [evalE]
 @[minigo] theorem evalE_unsupported (w : String) : evalE ext (.unsupported w) σ = .error w := by
   simp [evalE]
+@[minigo] theorem evalE_field (a : Expr) (f : String) : evalE ext (.field a f) σ =
+    bindE (evalE ext a σ) fun v s1 => .ok (ext f 0 [v], s1) := by simp [evalE]
+@[minigo] theorem evalL_nil : evalL ext [] σ = .ok ([], σ) := by simp [evalL]
+@[minigo] theorem evalL_cons (e : Expr) (es : List Expr) : evalL ext (e :: es) σ =
+    bindE (evalE ext e σ) fun v s1 => consV v (evalL ext es s1) := by simp [evalL]
 
 @[minigo] theorem exec_skip (fuel : Nat) : exec ext fuel .skip σ = .normal σ := by simp [exec]
 @[minigo] theorem exec_seq (fuel : Nat) (a b : Stmt) : exec ext fuel (.seq a b) σ =
@@ -650,7 +721,8 @@ theorem evalE_bin_gen (op : BinOp) (h1 : op ≠ .land) (h2 : op ≠ .lor) (a b :
     (match exec ext fuel b (State.mk vs cs tr [] ar) with
      | .normal s1 => .normal { s1 with trace := s1.defers.reverse ++ s1.trace, defers := df }
      | .returned _ s1 => .normal { s1 with trace := s1.defers.reverse ++ s1.trace, defers := df }
-     | .error m => .error m) := by simp [exec]
+     | .error m => .error m
+     | .panicked s1 => .panicked { s1 with trace := s1.defers.reverse ++ s1.trace, defers := df }) := by simp [exec]
 @[minigo] theorem exec_while_zero (c : Expr) (b : Stmt) : exec ext 0 (.while c b) σ = .error "out of fuel" := by simp [exec]
 @[minigo] theorem exec_while_succ (fuel : Nat) (c : Expr) (body : Stmt) : exec ext (fuel + 1) (.while c body) σ =
     bindS (evalE ext c σ) fun v s1 => asBoolS v fun b =>
@@ -663,6 +735,16 @@ theorem evalE_bin_gen (op : BinOp) (h1 : op ≠ .land) (h2 : op ≠ .lor) (a b :
     bindS (evalE ext a σ) fun va s1 => bindS (evalE ext b s1) fun vb s2 => .returned [va, vb] s2 := by simp [exec]
 @[minigo] theorem exec_unsupported (fuel : Nat) (w : String) : exec ext fuel (.unsupported w) σ =
     .error w := by simp [exec]
+@[minigo] theorem exec_append (fuel : Nat) (arr : String) (e : Expr) : exec ext fuel (.append arr e) σ =
+    bindS (evalE ext e σ) fun v s1 => .normal ((s1.push arr [("", v)]).set arr .nonNil) := by simp [exec]
+@[minigo] theorem exec_callS (fuel : Nat) (dsts : List String) (fn pfn : String) (args : List Expr) :
+    exec ext fuel (.callS dsts fn pfn args) σ = bindL (evalL ext args σ) fun vs s1 =>
+      if pfn ≠ "" ∧ isTrue (ext pfn (s1.ncalls fn) vs) = true then .panicked ((s1.bump fn).push fn (argKeys.zip vs))
+      else .normal (((s1.bump fn).push fn (argKeys.zip vs)).setAll dsts (fun i => ext fn (s1.ncalls fn) (.int i :: vs)) 0) := by
+  simp [exec]
+omit [FloatLike F] in
+@[minigo] theorem push_mk (arr : String) (rec : List (String × Val F)) :
+    (σ).push arr rec = State.mk vs cs tr df (upd arr ((lookup arr ar).getD [] ++ [rec]) ar) := rfl
 
 omit [FloatLike F] in
 @[minigo] theorem get_mk (x : String) : (σ).get x = lookup x vs := rfl
@@ -687,7 +769,7 @@ end literal
 @[minigo] theorem evalE_ite_state (ext : Ext F) (e : Expr) (p : Prop) [Decidable p] (a b : State F) :
     evalE ext e (if p then a else b) = if p then evalE ext e a else evalE ext e b := by split <;> rfl
 
-attribute [minigo] runFn State.ofVars binopInt binopFlt binopBool binopNil convert builtin1 builtin2 lookup upd
+attribute [minigo] argKeys runFn State.ofVars binopInt binopFlt binopBool binopNil convert builtin1 builtin2 lookup upd
 
 /-! ### what the interleaving models cut functions into: the atomic operations, in program order -/
 
@@ -701,6 +783,7 @@ def atomicOpsE : Expr → List String
   | .call0 f => ["call " ++ f]
   | .call1 f a => atomicOpsE a ++ ["call " ++ f]
   | .call2 f a b => atomicOpsE a ++ atomicOpsE b ++ ["call " ++ f]
+  | .field a _ => atomicOpsE a
   | _ => []
 
 /-- every atomic operation and effect a statement can perform, in source order (both branches of an `if`) -/
@@ -714,6 +797,8 @@ def atomicOps : Stmt → List String
   | .scope b => atomicOps b
   | .while c b => atomicOpsE c ++ atomicOps b
   | .ret2 a b => atomicOpsE a ++ atomicOpsE b
+  | .append _ e => atomicOpsE e
+  | .callS _ fn _ args => (args.map atomicOpsE).flatten ++ ["call " ++ fn]
   | _ => []
 
 /-! ### the two float instances -/
